@@ -1922,6 +1922,7 @@ int xmp_start_player(xmp_context opaque, int rate, int format)
 	p->current_time = 0;
 	p->loop_count = 0;
 	p->sequence = 0;
+	p->filter = 0;
 
 	/* Set default volume and mute status */
 	for (i = 0; i < mod->chn; i++) {
